@@ -3,11 +3,12 @@ from ..core.model import Program, mutated_source
 from ..core.report import CheckContext
 from ..core.resolve import Resolver
 from ..rules import dispatch, effect
-from .common import run_control
+from .common import run_control, generic_rules
 
 
 def analyse(ctx: CheckContext, p: Program):
     r = Resolver(p)
+    generic_rules(ctx, p, r, "C20")
     dispatch.check_dispatch(ctx, p, r)
     dispatch.check_lmtd_guard(ctx, p, r)
     # the relations are functions of their arguments only: nothing in the module writes module-level state (memo tables keyed too coarsely etc.)
